@@ -45,6 +45,17 @@ func (Bonder) SetMaxBalance(
 }
 
 func (b Bonder) Bond(ctx context.Context, mutable state.Mutable, tx *chain.Transaction, feeRate uint64) (bool, error) {
+	txID := tx.GetID()
+	bonded, err := b.db.Has(txID[:])
+	if err != nil {
+		return false, fmt.Errorf("failed to check tx bond: %w", err)
+	}
+	if bonded {
+		// Make this operation idempotent if the tx is already bonded, so that the
+		// single Unbond of the tx releases everything that was bonded for it
+		return true, nil
+	}
+
 	address := tx.GetSponsor()
 	addressBytes := address[:]
 
@@ -82,7 +93,6 @@ func (b Bonder) Bond(ctx context.Context, mutable state.Mutable, tx *chain.Trans
 		return false, err
 	}
 
-	txID := tx.GetID()
 	if err := batch.Put(txID[:], binary.BigEndian.AppendUint64(nil, fee)); err != nil {
 		return false, fmt.Errorf("failed to write tx fee: %w", err)
 	}
